@@ -1,8 +1,8 @@
 """Shared pass for C01 (timing), C02 (listing) and C04 (span): program enumeration vs the schedule model."""
 from mc import world
 from mc.engine import Family, Res
-from mc.interp import build, count_events, make_op
-from mc.ref.schedule import Judge, canonical_state, structure_sig
+from mc.interp import build, count_events, make_op, RT, leaf_kinds, class_name, footprint
+from mc.ref.schedule import Judge, canonical_state, structure_sig, chans_of
 from mc.ref.unroll import model_build, model_rows, impl_rows, Sched
 from mc.spaces import FlatSpace, NestedSpace1, NestedSpace2, SparseSpace, N1_BODIES, N1_BODIES_EXTRA
 
@@ -76,6 +76,8 @@ class SchedFamily(Family):
                 judge.check_times(circ, ops, 'as built')
             if 'C04' in self.want:
                 judge.check_span(circ, 'as built')
+            if ('C01' in self.want or 'C04' in self.want) and any(e[0] == 'sub' for e in prog):
+                self.flatten_keeps_relations(prog, res)
             states = [canonical_state(circ)]
             outcome = [tuple((round(o.start_time, 9), round(o.end_time, 9)) for o in ops), round(circ.duration, 9)]
             n_events = count_events(prog)
@@ -106,6 +108,12 @@ class SchedFamily(Family):
                     if len(set(map(id, uops))) != len(uops):
                         res.fail('C02-duplicate', 'unrolled: an operation is listed twice')
                     judge.check_causal(un, uops, 'unrolled')
+                    # nothing lost, nothing duplicated after unrolling either: every added leaf is listed once per repetition of its blocks
+                    want_ms = sorted((class_name(k) if k[0] != '@' else k[1:].partition(':')[0], tuple(footprint(k, q))) for k, q in leaf_kinds(prog))
+                    got_ms = sorted((type(o).__name__, chans_of(o)) for o in uops)
+                    if want_ms != got_ms:
+                        res.fail('C02-unrolled-content', 'program %r: after unrolling %d operations are listed, the program has %d (counting repetitions): %s' % (
+                            prog, len(got_ms), len(want_ms), first_difference(want_ms, got_ms)))
                 if 'C04' in self.want:
                     judge.check_span(un, 'unrolled')
                 states.append(canonical_state(un))
@@ -117,6 +125,52 @@ class SchedFamily(Family):
         res.validated = 1
         res.trivial = len(prog) < 2
         return res
+
+
+def first_difference(a, b):
+    from collections import Counter
+    ca, cb = Counter(a), Counter(b)
+    return 'missing %r, unexpected %r' % (sorted((ca - cb).items())[:3], sorted((cb - ca).items())[:3])
+
+
+def _flatten_keeps_relations(self, prog, res):
+    """C01 through flatten(): an operation that was placed relative to another operation or to a block (explicitly, or by
+    the implicit rule) is still where that relation says - measured against the referenced object as it reports itself
+    after flattening (a block handle keeps reporting the span of what it contains)."""
+    bf = build(prog)
+    bf.circ.operations
+    given = []
+    for i, e in enumerate(prog):
+        if e[0] == 'op':
+            link = bf.ent[i].relation_link
+            ref = link.reference_node
+            # (a block without content leaves nothing behind that a flattened circuit could refer to)
+            if ref is not None and ref.decomposed_operations():
+                given.append((i, ref, link.relation_type))
+    bf.circ.flatten()
+    world.clear_memo()
+    for i, ref, rt in given:
+        o = bf.ent[i]
+        if rt == RT['FB']:
+            want, got, what = ref.end_time, o.start_time, 'start'
+        elif rt == RT['JS']:
+            want, got, what = ref.start_time, o.start_time, 'start'
+        else:
+            want, got, what = ref.end_time, o.end_time, 'end'
+        if abs(want - got) > 1e-9 and 'C04' in self.want and 'C01' not in self.want:
+            # C04: what is scheduled FOLLOWED_BY a block starts only after all of the block's operations have ended
+            inner = ref.decomposed_operations() if rt == RT['FB'] and hasattr(ref, 'get_sub_composite_operations') else []
+            if inner and min(x.start_time for x in inner) >= ref.start_time - 1e-9 and got < max(x.end_time for x in inner) - 1e-9:
+                res.fail('C04-follower-flatten', 'program %r: after flatten() entry %d, scheduled FOLLOWED_BY a block, starts at %r although the operations of that block end at %r' % (
+                    prog, i, got, max(x.end_time for x in inner)))
+                break
+        elif abs(want - got) > 1e-9:
+            res.fail('C01-flatten-relation', 'program %r: after flatten() entry %d (%s %s) has %s %r, its reference reports %r' % (
+                prog, i, rt.name, type(ref).__name__, what, got, want))
+            break
+
+
+SchedFamily.flatten_keeps_relations = _flatten_keeps_relations
 
 
 def families_for(want, tier):
